@@ -25,13 +25,13 @@ var (
 )
 
 type world struct {
-	st        *bubble.Stack
-	cancelled bool
-	cancelAt  time.Time
-	mu        sync.Mutex
-	holding   map[string]chan struct{} // path -> release channel (handler parked in the backend)
-	entered   map[string]bool
-	released  map[string]bool
+	st               *bubble.Stack
+	cancelled        bool
+	cancelAt         time.Time
+	mu               sync.Mutex
+	holding          map[string]chan struct{} // path -> release channel (handler parked in the backend)
+	entered          map[string]bool
+	released         map[string]bool
 	afterCancelPaths map[string]bool // requests sent on connections that were dialled after cancel
 }
 
@@ -66,9 +66,9 @@ func (w *world) h1Holding() bool {
 }
 
 type variant struct {
-	name       string
-	lateServe  bool // Serve is started by an explicit step (cancel may come before it)
-	withH2     bool
+	name         string
+	lateServe    bool // Serve is started by an explicit step (cancel may come before it)
+	withH2       bool
 	doubleCancel bool
 }
 
@@ -266,6 +266,9 @@ func runOne(t *testing.T, v variant, c *mc.Chooser) (out mc.Outcome) {
 			panic(he)
 		}
 		viol("panic", "panic: %v\n%s", res.Panic, res.Stack)
+	}
+	if res.Hang != "" {
+		viol("hang", "%s", res.Hang)
 	}
 	if res.Deadlock != "" {
 		out.Obs += " LEAK"
